@@ -1,0 +1,7 @@
+//go:build !verif
+
+package keystore
+
+// verifSigned is the no-op counterpart of the verification hook in
+// zz_verif_counter.go; empty and inlinable, so normal builds are unchanged.
+func verifSigned() {}
